@@ -49,3 +49,74 @@ def is_panic_assert(term):
 
 def guard_locals(body):
     return [i for i, l in enumerate(body.locals) if 'std::sync::MutexGuard' in l['parts']['adts'] and not l['ty'].startswith('&')]
+
+
+# ---- debug assertions -------------------------------------------------------------------------------------------------------
+# `debug_assert!(cond, "msg")` expands to `if cfg!(debug_assertions) { if !cond { panic!("msg") } }`: a switch on a constant
+# defined in the block of the switch.  The condition's *evaluation* is ordinary code (an effect hidden in it is seen by every
+# rule, and the other build takes the other arm - section 23); the failure branch - message formatting and the panic call - is
+# what the predicates below recognise, so that rules about "what else happens here" (work under the lock, extra calls in a
+# guard) can leave an assertion's failure branch out.  Assumption recorded in the evidence: debug assertions hold.
+ASSERT_MACHINERY = ('std::rt::panic_fmt', 'std::rt::begin_panic', 'core::panicking::', 'std::panicking::', 'std::fmt::Arguments::', 'core::fmt::Arguments::',
+                    'core::fmt::rt::Argument::', 'std::fmt::rt::Argument::', 'core::panicking::assert_failed', 'std::rt::panic_display')
+
+
+def const_switch_blocks(body):
+    """blocks whose switch tests a constant defined in the same block (cfg!(..) and friends): [(blk, taken arm target, other targets)]"""
+    out = []
+    for blk in body.blocks:
+        t = blk.term
+        if t.kind != 'switch' or blk.cleanup or t.j.get('dty') != 'bool':
+            continue
+        val = None
+        if t.discr.kind == 'const':
+            val = str(t.discr.const.get('v'))
+        elif not t.discr.place.proj:
+            for s in blk.stmts:
+                if s.kind == 'assign' and not s.place.proj and s.place.local == t.discr.place.local:
+                    val = str(s.rv.ops[0].const.get('v')) if s.rv.kind == 'use' and s.rv.ops and s.rv.ops[0].kind == 'const' else None
+        if val in ('true', 'false'):
+            arms = dict(t.switch_arms())
+            if val in arms:
+                out.append((blk, arms[val], [x for l, x in arms.items() if l != val]))
+    return out
+
+
+def assertion_failure_blocks(body, an):
+    """blocks that belong to the failure branch of a debug assertion: inside the constant-governed region, every path from
+    them ends in a panic (they cannot reach the function's return) and they only call assertion machinery"""
+    out = set()
+    rets = set(an.exits()['return'])
+    for blk, taken, others in const_switch_blocks(body):
+        region = an.reach([taken], ('normal',), avoid=others)
+        for o in others:
+            region = region - an.reach([o], ('normal',), avoid=[taken]) if False else region
+        for x in region:
+            b = body.blocks[x]
+            if b.cleanup:
+                continue
+            fwd = an.reach([x], ('normal',))
+            if fwd & rets:
+                continue
+            ok = True
+            for y in fwd:
+                ty = body.blocks[y].term
+                if ty.kind == 'call' and not body.blocks[y].cleanup and not any(n.startswith(ASSERT_MACHINERY) for n in ty.callee_names()):
+                    ok = False; break
+                if ty.kind == 'yield':
+                    ok = False; break
+            if ok:
+                out.add(x)
+    return out
+
+
+def assertion_region_blocks(body, an):
+    """blocks that exist only to evaluate (and report) a debug assertion: between a constant-governed switch and the point where
+    its two arms meet again"""
+    out = set()
+    for blk, taken, others in const_switch_blocks(body):
+        joins = set()
+        for o in others:
+            joins |= an.reach([o], ('normal',))
+        out |= {x for x in an.reach([taken], ('normal',), avoid=list(others)) if x not in joins}
+    return out
